@@ -30,7 +30,7 @@ REQUIRED = {"testcases.scenario_whose_sub_step_did_not_pass_is_not_reported_pass
             "counters.match_entries": {"quick": 600, "thorough": 30000}, "problem.entry_names_step_or_hook": {"quick": 300, "thorough": 15000},
             "reporter.never_raises": {"quick": 600, "thorough": 30000},
             "testcases.scenario_whose_cleanup_raised_is_not_reported_passed": {"quick": 30, "thorough": 1500}}
-REQUIRED_SEEN = {"nested_sub_step": ["undefined", "fail", "error"], "feature_file_name_class": ["dotted"], "row_name_schema": ["{name}"], "captured_output_size": ["beyond_64KiB"], "testcase_status": ["passed", "failed", "error", "hook_error", "skipped", "untested"],
+REQUIRED_SEEN = {"hook_fault_kind": ["keyboard_interrupt"], "nested_sub_step": ["undefined", "fail", "error"], "feature_file_name_class": ["dotted"], "row_name_schema": ["{name}"], "captured_output_size": ["beyond_64KiB"], "testcase_status": ["passed", "failed", "error", "hook_error", "skipped", "untested"],
                  "hostile_class_in_report": ["xml_meta", "cdata_end", "c0", "c1", "ansi", "astral", "non_ascii", "format_meta"]}
 NSHARDS = {"quick": 16, "thorough": 16}
 
@@ -432,6 +432,12 @@ def run(spec, mon):
             if obs0.hooks:
                 case = dict(case, hook_fault={"k": rng.randrange(len(obs0.hooks)), "exc": rng.choice(["Exception", "AssertionError"]),
                                               "message": hostile.text(rng, sep=" ") if rng.random() < 0.7 else ""})
+                inner = [k for k, h in enumerate(obs0.hooks) if not h[0].endswith("_all")]
+                if inner and rng.random() < 0.3:
+                    # the user interrupts the run (Ctrl-C) while a hook is running: the run is aborted, what ran so far -- the
+                    # interrupted feature included -- is reported
+                    case = dict(case, hook_fault={"k": rng.choice(inner), "exc": "KeyboardInterrupt"})
+                    mon.seen("hook_fault_kind", "keyboard_interrupt")
         elif mode == 2 and not case["cfg"]["dry_run"]:
             case = dict(case, cleanup_plan={"register_in": rng.choice(["before_scenario", "before_feature", "after_scenario", "before_rule"])})
         if i % 6 == 4:
